@@ -5,6 +5,6 @@ cd /verif
 [ -z "$(git -C /repo status --porcelain)" ] || { echo "/repo not clean"; exit 9; }
 git -C /repo apply "$P" || { echo "patch does not apply"; exit 9; }
 ./check $PID --tier $TIER; rc=$?
-git -C /repo checkout -- . ; git -C /repo clean -fdq
+git -C /repo checkout -- . ; git -C /repo clean -fdq; git -C /verif checkout -- evidence 2>/dev/null
 echo "check rc=$rc"
 exit $rc
